@@ -126,8 +126,8 @@ def run(ctx):
                                         ok = len(calls) == 1 and calls[0][0] == "gamma" and _close(flat[0][0], float(a)) and _close(flat[0][1], 1.0 / float(b))
                                         if not ok:
                                             ctx.fail("C13:sample:params:K=0", "K = 0 must draw from the prior Gamma(a, scale 1/b)", replay)
-                                        if ret != float(g):
-                                            ctx.fail("C13:sample:return:K=0", "returned value is not the gamma draw", replay)
+                                        if not _is_draw(ret, float(g)):
+                                            ctx.fail("C13:sample:return:K=0", "returned value is not the gamma draw (up to the 1e-10 floor)", replay)
                                     else:
                                         if [c[0] for c in calls] != ["beta", "bernoulli", "gamma"]:
                                             ctx.fail("C13:sample:calls:K>=1", "expected beta, bernoulli, gamma draws in this order", replay)
@@ -147,8 +147,8 @@ def run(ctx):
                                             ratios.append(mix / tgt)
                                         if max(ratios) - min(ratios) > 1e-9 * max(ratios):
                                             ctx.fail("C13:sample:mixture:K>=1", "mixture with the code's weight is not proportional to x^(a+K-2)(x+n)exp(-x r): ratios %r" % (ratios,), replay)
-                                        if ret != max(float(g), 1e-10):
-                                            ctx.fail("C13:sample:return:K>=1", "returned value is not max(gamma draw, 1e-10)", replay)
+                                        if not _is_draw(ret, float(g)):
+                                            ctx.fail("C13:sample:return:K>=1", "returned value is not the gamma draw (up to the 1e-10 floor)", replay)
                                     # ---- Coq correspondence item
                                     items.append("chk %s %s %s %d %d %s %s %s [%s] %s" % (
                                         q(a), q(b), q(alpha), K, n, q(L), "true" if z else "false", q(g),
@@ -174,8 +174,9 @@ def run(ctx):
             __slots__ = ("seen",)
 
             def sample(self, old_value, num_clusters, num_data_points):
-                self.seen.append((old_value, num_clusters, num_data_points))
-                return super().sample(old_value, num_clusters, num_data_points)
+                ret = super().sample(old_value, num_clusters, num_data_points)
+                self.seen.append((old_value, num_clusters, num_data_points, ret))
+                return ret
 
         for si, spec in enumerate(specs):
             K_true = len(spec_nodes(spec))
@@ -203,13 +204,16 @@ def run(ctx):
                 if len(sampler.seen) != 1:
                     ctx.fail("C13:update_concentration_value:calls:%s" % shape_key, "sample() called %d times" % len(sampler.seen), replay)
                     continue
-                ov, K, n = sampler.seen[0]
+                ov, K, n, returned = sampler.seen[0]
                 if (K, n) != (K_true, n_true) or ov != old_alpha:
                     ctx.fail("C13:update_concentration_value:K_n:%s" % shape_key,
                              "sample() received (old, K, n) = (%r, %r, %r); the tree has %d clones holding %d non-outlier points, alpha was %r" % (ov, K, n, K_true, n_true, old_alpha), replay)
-                expect = new_draw if K_true == 0 else max(new_draw, 1e-10)
-                if dist.prior.alpha != expect:
-                    ctx.fail("C13:update_concentration_value:alpha:%s" % shape_key, "prior.alpha after the update is %r, the sampler returned %r" % (dist.prior.alpha, expect), replay)
+                # the 1e-10 floor is a numerical guard outside the statement: the draw itself or the floored draw is accepted
+                if not _is_draw(returned, new_draw):
+                    ctx.fail("C13:update_concentration_value:draw:%s" % shape_key, "sample() returned %r for the gamma draw %r" % (returned, new_draw), replay)
+                expect = returned
+                if dist.prior.alpha != returned:
+                    ctx.fail("C13:update_concentration_value:alpha:%s" % shape_key, "prior.alpha after the update is %r, the sampler returned %r" % (dist.prior.alpha, returned), replay)
                 if not _close(float(dist.prior.log_alpha), math.log(expect)):
                     ctx.fail("C13:update_concentration_value:log_alpha:%s" % shape_key, "prior.log_alpha = %r but log(alpha) = %r" % (dist.prior.log_alpha, math.log(expect)), replay)
                 fresh = TreeJointDistribution(FSCRPDistribution(expect))
@@ -262,6 +266,11 @@ def _flatten(calls):
             shape = kw.get("a", args[0] if args else None)
             out.append((float(shape), float(kw.get("scale", 1.0))))
     return out
+
+
+def _is_draw(ret, g, floor=1e-10):
+    """the returned value is the gamma draw, possibly raised to the numerical floor"""
+    return ret == g or (g < floor and ret == floor)
 
 
 def _close(x, y, tol=1e-12):
